@@ -58,6 +58,14 @@ def items(tier, seed):
     for i, c in enumerate(out):
         if i % 5 == 0 and c["op"] in ("mul", "div", "self_div") and "pow" not in json.dumps(c):
             c["arr"] = ["numpy", "list", "tuple"][(i // 5) % 3]
+    # empty Array operands: only the dimension clauses apply
+    for i in range(30 if tier == "quick" else 400):
+        A, B = rng.choice(pool[rng.choice(names)]), rng.choice(pool[rng.choice(names)])
+        if n_leaves(A) + n_leaves(B) <= 5 and "pow" not in json.dumps([A, B]):
+            out.append({"A": A, "B": B, "op": ["mul", "div", "fdiv", "self_div"][i % 4], "arr": ["list", "tuple", "numpy"][i % 3], "empty": True})
+    for op in ("mul", "div", "rdiv"):
+        for kb in ("list", "tuple"):
+            out.append({"A": ["leaf", "m", "length"], "B": ["leaf", "s", "time"], "op": "aux_int_dtype", "aop": op, "kb": kb})
     for c in out:
         if c["op"] == "mul" and not c.get("arr"):
             c["canary"] = True
@@ -67,6 +75,8 @@ def items(tier, seed):
 
 
 def inputs(cfg):
+    if cfg["op"] == "aux_int_dtype":
+        return {"x0": "real"}
     nb = n_leaves(cfg["B"]) if cfg["B"] is not None and cfg["op"] != "self_div" else 0  # (dimless_* ops use both operands)
     return {"x%d" % i: "real" for i in range(n_leaves(cfg["A"]) + nb)}
 
@@ -75,9 +85,38 @@ def _vq(o):
     return (first_value(o), qmap(o))
 
 
+def _qt_dims(text):
+    """exponent per quantity type read back from the quantity-type STRING ('a * (b) ** 2 / c'); None when it does not parse"""
+    import re
+
+    if text.count(" / ") > 1:
+        return None
+    num, _, den = text.partition(" / ")
+    d = {}
+    for part, sign in ((num, 1), (den, -1)):
+        if not part or (part == "1" and sign == 1):
+            continue
+        for f in part.split(" * "):
+            m = re.fullmatch(r"\((.+)\) \*\* (-?\d+)", f)
+            name, e = (m.group(1), int(m.group(2))) if m else (f, 1)
+            d[name] = d.get(name, 0) + sign * e
+    return {k: v for k, v in d.items() if v != 0}
+
+
 def run(cfg, V):
+    if cfg["op"] == "aux_int_dtype":
+        import numpy
+        from barril.units import Array, Scalar
+
+        ia, fb = [2, 3, 4], [0.5, 1.25, 2.75]
+        A = Array(numpy.array(ia), "m")
+        B = Array(fb if cfg["kb"] == "list" else tuple(fb), "s")
+        f = {"mul": lambda a, b: a * b, "div": lambda a, b: a / b, "rdiv": lambda a, b: b / a}[cfg["aop"]]
+        r = f(A, B)
+        want = [f(Scalar(float(a), "m"), Scalar(b, "s")) for a, b in zip(ia, fb)]
+        return {"aux": ([float(v) for v in r.GetValues()], [float(w.GetValue()) for w in want], r.GetUnit(), want[0].GetUnit())}
     ctr = [0]
-    cls = leaf_class(cfg.get("arr"))
+    cls = leaf_class(cfg.get("arr"), bool(cfg.get("empty")))
     A = build(cfg["A"], V, ctr, cls)
     op = cfg["op"]
     if op == "pow":
@@ -85,7 +124,7 @@ def run(cfg, V):
         return {"A": _vq(A), "r": _vq(r), "cls": type(r).__name__}
     if op == "self_div":
         r = A / A
-        return {"A": _vq(A), "r": _vq(r), "cls": type(r).__name__}
+        return {"A": _vq(A), "r": _vq(r), "cls": type(r).__name__, "qt_str": r.GetQuantityType()}
     B = build(cfg["B"], V, ctr, cls)
     if cfg.get("fixed_right"):
         from barril.units import FixedArray
@@ -113,6 +152,8 @@ def run(cfg, V):
         out["same_q"] = r.GetQuantity() == q.GetQuantity()
     out["r"] = _vq(r)
     out["cls"] = type(r).__name__
+    out["qt_str"] = r.GetQuantityType()
+    out["qt_str_A"] = A.GetQuantityType()
     return out
 
 
@@ -141,6 +182,23 @@ def props(cfg, T, obs):
             return []
         return [("* / // ** never raise for non-zero divisors", False)]
     op = cfg["op"]
+    if op == "aux_int_dtype":
+        got, want, unit, wunit = obs["aux"]
+        return [("auxiliary, concrete (not solver-decided): integer-dtype ndarray * or / fractional list equals the Scalar results",
+                 unit == wunit and len(got) == 3 and all(abs(a - b) <= 1e-12 * (abs(a) + abs(b) + 1) for a, b in zip(got, want)))]
+    if cfg.get("empty"):
+        dA, dr = dims_of(obs["A"][1]), dims_of(obs["r"][1])
+        P = [("result is an Array", obs["cls"] == "Array"), ("zero exponents disappear", _wellformed(obs["r"][1])), ("operand dims match the dimensional model", dA == model_dims(cfg["A"]))]
+        if op == "self_div":
+            return P + [("a/a is dimensionless (empty operands)", dr == {} and obs["r"][1] == [])]
+        dB = dims_of(obs["B"][1])
+        P.append(("dims(a op b)=dims(a)+-dims(b) (empty operands)", dr == _addd(dA, dB, 1 if op == "mul" else -1)))
+        if "comm" in obs:
+            P.append(("a*b and b*a have the same dimensions (empty operands)", dims_of(obs["comm"][1]) == dr))
+        if "back" in obs:
+            P.append(("(a op b) inverse-op b has a's dimensions (empty operands)", dims_of(obs["back"][1]) == dA))
+        P.append(("the quantity-type string lists exactly the exponents of the result", _qt_dims(obs["qt_str"]) == dr or not dr))
+        return P
     mA, mr = mag_of(*obs["A"]), mag_of(*obs["r"])
     dA, dr = dims_of(obs["A"][1]), dims_of(obs["r"][1])
     P = [("result is a Scalar (Array / FixedArray for Array operands)", obs["cls"] == ("Array" if cfg.get("arr") else "Scalar")), ("zero exponents disappear", _wellformed(obs["r"][1])),
@@ -156,6 +214,8 @@ def props(cfg, T, obs):
         P += [("a/a is dimensionless", dr == {} and obs["r"][1] == []), ("a/a = 1", approx(mr, 1))]
         return P
     mB, dB = mag_of(*obs["B"]), dims_of(obs["B"][1])
+    if "qt_str" in obs and dr:
+        P.append(("the quantity-type string lists exactly the exponents of the result", _qt_dims(obs["qt_str"]) == dr and (not dA or _qt_dims(obs["qt_str_A"]) == dA)))
     if op.startswith("dimless") or op == "div_dimless":
         neg = {k: -v for k, v in dB.items()}
         one = mag_of(*obs["one"])
@@ -187,5 +247,5 @@ def props(cfg, T, obs):
 
 
 def finding_key(cfg, name):
-    sym = {"mul": "*", "div": "/", "fdiv": "//", "pow": "**", "self_div": "/self", "dimless_div": "(a/a)/", "dimless_fdiv": "(a/a)//", "dimless_mul": "(a/a)*", "div_dimless": "b/(a/a)"}[cfg["op"]] + (" FixedArray right" if cfg.get("fixed_right") else "") + (" [Array.%s]" % cfg["arr"] if cfg.get("arr") else "")
+    sym = {"mul": "*", "div": "/", "fdiv": "//", "pow": "**", "self_div": "/self", "dimless_div": "(a/a)/", "dimless_fdiv": "(a/a)//", "dimless_mul": "(a/a)*", "div_dimless": "b/(a/a)", "aux_int_dtype": "aux_int_dtype " + str(cfg.get("aop")) + " " + str(cfg.get("kb"))}[cfg["op"]] + (" empty" if cfg.get("empty") else "") + (" FixedArray right" if cfg.get("fixed_right") else "") + (" [Array.%s]" % cfg["arr"] if cfg.get("arr") else "")
     return "%s %s %s :: %s" % (spec_str(cfg["A"]), sym, spec_str(cfg["B"]) if cfg["B"] else cfg.get("n"), name)
